@@ -4,6 +4,9 @@ from mirsym import explore, native
 from . import unifier, c09
 from .runner import Check
 
+SIGHELP = ['fn labelled(label1 arg1: Int, label2 arg2: String) { arg2 }\nfn main() { 1 |> labelled(label2: "a", label1: 2) }\n',
+           'fn labelled(label1 arg1: Int, label2 arg2: String) { arg2 }\nfn main() { labelled(1, "a", label1: 2) }\n',
+           'fn f(a a: Int, b b: Int, c c: Int) { a }\nfn main() { f(c: 1, b: 2, a: 3) }\n']
 CYCLIC = ['fn main() { let f = fn(x) { x(x) } f(f) }\n', 'fn twice(x) { x(x) x(x) }\n', 'fn main() { let l = [l] l }\n', 'fn f(x) { [x, [x]] }\n',
           'fn g(x) { #(x, g) }\nfn h() { g(g) }\n']
 
@@ -15,6 +18,24 @@ def main(tier, seed):
     oracle = native.Oracle(native.build('oracle-ide'))
     try:
         found = c09.run_kernel(chk, tier, jobs, ['C10'])
+        # signature help's argument reordering helper on arbitrary indices
+        mfound = []
+        for n in range(0, 4 if tier == 'quick' else 6):
+            res, complete = explore.explore(unifier.move_factory, (n,), jobs=1)
+            chk.add_run('signature_help::move_element on a %d-element vector, arbitrary usize indices' % n, res, complete, {'len': n}, nontrivial_classes=lambda c: c == 'moved')
+            mfound += res.violations
+        if mfound:
+            crashes_sh = []
+            for src in SIGHELP:
+                offs = list(range(0, len(src)))
+                r = oracle.ask('sighelp', json.dumps({'text': src, 'offsets': offs}))
+                if 'sighelp' not in r:
+                    crashes_sh.append('signature help at every offset of %r: %s' % (src, r))
+            v = mfound[0]
+            if crashes_sh:
+                chk.violation('signature-help:move_element', 'bounded', '%s; public API: %s' % (v['why'][0][:300], crashes_sh[0][:300]), v['cex'], confirmed=True)
+            else:
+                chk.inconclusive.append('move_element kernel: %s - but signature help on the labelled-call corpus answers; not reported as a violation' % v['why'][0][:300])
         crashes = []
         for src in CYCLIC:
             offs = [i for i in range(0, len(src), 2)]
